@@ -588,6 +588,12 @@ mut('c20-tomb-reject', 'C20', 'C20.S2.tombstone_never_rejects', hist, '''       
         }
         (_, akd_value) => {
             // No tombstone so hash the value found, and compare to the existence proof's value''', 'empty values rejected in Default mode (seed C20-r2-a)', also=['C07'])
+mut2('c18-pk-static', 'C18', 'C18.SIB.get_node_labels', [(traits, '''        let pk = VRFPublicKey::from(&key);
+
+        #[cfg(feature = "parallel_vrf")]''', '''        static PUBLIC_KEY: std::sync::OnceLock<VRFPublicKey> = std::sync::OnceLock::new();
+        let pk = PUBLIC_KEY.get_or_init(|| VRFPublicKey::from(&key)).clone();
+
+        #[cfg(feature = "parallel_vrf")]''')], 'public key cached across storages (seed C18-r2-b)', also=['C14'])
 
 out = [m for m in M if not m.get('disabled')]
 json.dump({'mutants': out}, open(os.path.join(os.path.dirname(os.path.abspath(__file__)), 'mutants.json'), 'w'), indent=1)
